@@ -140,7 +140,11 @@ func checkDerive(c deriveCase) (info h.Info, err error) {
 		}
 		return info, nil
 	}
-	key, kerr := slip10.NewMasterKey(seed, cut)
+	seedWithCap := append(append(make([]byte, 0, len(seed)+72), seed...), bytes.Repeat([]byte{0xa5}, 72)...)[:len(seed)]
+	key, kerr := slip10.NewMasterKey(seedWithCap, cut)
+	if !bytes.Equal(seedWithCap, seed) || !bytes.Equal(seedWithCap[:cap(seedWithCap)][len(seed):], bytes.Repeat([]byte{0xa5}, 72)) {
+		return info, fmt.Errorf("NewMasterKey modified the caller's seed slice or wrote behind it")
+	}
 	if kerr != nil {
 		return info, fmt.Errorf("NewMasterKey(%x, %s): %v", seed, c.Curve, kerr)
 	}
@@ -199,6 +203,26 @@ func checkDerive(c deriveCase) (info h.Info, err error) {
 			return info, err
 		}
 		totalRetries += next.Retries
+		// scribbling over the child's outputs must not change a second derivation of the same child from the
+		// parent (no buffers shared between derivations). Whether Key.Bytes() itself is a copy is not part
+		// of the statement (eddsa.Seed returns its own storage) and is not asserted.
+		if step == len(c.Path)-1 && !toy {
+			for _, b := range [][]byte{key.ChainCode[:0:0], child.Key.Bytes(), child.ChainCode, child.Fingerprint(), key.Key.Public().Bytes()} {
+				for i := range b {
+					b[i] ^= 0xff
+				}
+			}
+			for i := range child.ChainCode { // undo: ChainCode is an exported field, restore what we flipped
+				child.ChainCode[i] ^= 0xff
+			}
+			again, err := key.DeriveChild(idx)
+			if err != nil {
+				return info, fmt.Errorf("step %d: second derivation of the same child failed: %v", step, err)
+			}
+			if err := compareNode(fmt.Sprintf("step %d index %#x, second derivation after the first result was overwritten", step, idx), again, next); err != nil {
+				return info, err
+			}
+		}
 		key, n = child, next
 	}
 	// deriving along the whole path at once equals the step-wise derivation (private paths only)
